@@ -77,4 +77,37 @@ void h_simple_cache(void) {
   __CPROVER_assert(inv1(k) && inv1(gk), "_simple (array cache): cache invariant re-established (slot of the call and any other slot)");
   VACUITY_CANARY();
 }
+#elif WHICH == 2  // ---------------- generic: pointer array  static T* p[NSLOT], slot log2m(m), key m, filled by new_T(m, ...)
+// The constructor new_T builds large trigonometric tables; its calls are redirected (goto-instrument --replace-calls) to the
+// stub below, which is its ASSUMED contract: "returns a fresh table object for dimension m" (the abstract view of a table is
+// its ->m field; that new_T is a deterministic function of m is an assumption listed in the evidence).  The kernel behind
+// ->function is a recording stub: the post is about WHICH table the kernel is handed.
+#include HDR
+extern T_* v_p[NSLOT] __asm__(ALIAS);
+#include SRCFILE
+GHOST int64_t GSEEN_M;
+GHOST _Bool GSEEN;
+static void verif_kernel(const T_* t, KPARAMS) { GSEEN_M = t->m; GSEEN = 1; }
+T_* verif_new(uint32_t m NEWPARAMS) {
+  T_* t = malloc(sizeof(T_));
+  __CPROVER_assume(t != 0);
+  t->m = m; t->function = verif_kernel;
+  return t;
+}
+static _Bool inv2(uint32_t k) { return v_p[k] == 0 || (v_p[k]->m == ((int64_t)1 << k) && v_p[k]->function == verif_kernel); }
+void h_simple_cache(void) {
+  uint32_t m, gk = nondet_u32();
+  __CPROVER_assume(POW2_32(m) && m <= ((uint32_t)1 << (NSLOT - 1)) && gk < NSLOT);
+  uint32_t k = log2m(m);
+  T_* o0 = malloc(sizeof(T_)); T_* o1 = malloc(sizeof(T_));
+  __CPROVER_assume(o0 && o1);
+  v_p[k] = nondet_bool() ? o0 : 0; v_p[gk] = (gk == k) ? v_p[k] : (nondet_bool() ? o1 : 0);   // arbitrary contents of the two slots looked at
+  __CPROVER_assume(inv2(k) && inv2(gk));
+  double r[2], a[2], b[2];
+  GSEEN = 0;
+  SIMPLE_CALL;
+  __CPROVER_assert(GSEEN && GSEEN_M == (int64_t)m, "_simple (pointer cache): the kernel is handed the table built for dimension m, whatever was called before");
+  __CPROVER_assert(inv2(k) && inv2(gk), "_simple (pointer cache): cache invariant re-established (slot of the call and any other slot)");
+  VACUITY_CANARY();
+}
 #endif
